@@ -1,5 +1,5 @@
 (* C16 — the v1.2.0 upgrade and store migrations preserve locked value. *)
-From C4E Require Import Base Vest VestFrame VestProofs SolventProofs Upgrade.
+From C4E Require Import Base Vest VestFrame VestProofs SolventProofs Upgrade Minter Distributor Params Migrate MigrateProofs.
 Open Scope Z_scope.
 
 (* v2 -> v3 pool migration: total locked, every pool's amounts / history / lock period / type are
@@ -70,3 +70,74 @@ Example C16_example :
   /\ upgrade_pools k [ap; {| p_name := 1; p_vtype := 9; p_lock_start := 10; p_lock_end := 50; p_locked := 100; p_withdrawn := 48; p_sent := 30; p_genesis := false |}] true = None
   /\ upgrade_pools k [ap; vp] false = None.
 Proof. vm_compute. repeat split. Qed.
+
+(* ---------------------------------------------------------------------------------------------------------------
+   migrated minter and distributor parameters validate and describe the same schedule and shares as before *)
+
+(* whatever the 2 -> 3 minter migration stores passes the new validation (minters and mint denomination) *)
+Theorem C16_migrated_minter_params_validate :
+  forall c p, migrate_minter_v3 c = Ok p -> params_valid p = true /\ mp_denom_ok p = true.
+Proof. exact migrated_minter_params_validate. Qed.
+Print Assumptions C16_migrated_minter_params_validate.
+
+(* ... and is exactly what the legacy parameters describe, read off the configurations that are present (for every
+   legacy configuration the migration accepts: any number of periods, any ids, amounts, times) *)
+Theorem C16_migrated_minter_params_describe_the_same_schedule :
+  forall c p, migrate_minter_v3 c = Ok p -> p = legacy_view c.
+Proof. exact migrated_minter_params_describe_the_legacy_schedule. Qed.
+Print Assumptions C16_migrated_minter_params_describe_the_same_schedule.
+
+(* so every block mints and every inflation query answers what the legacy description gives, from every state *)
+Theorem C16_migrated_minter_behaves_like_legacy :
+  forall c p st now supply, migrate_minter_v3 c = Ok p ->
+  mint p st now = mint (legacy_view c) st now /\
+  current_inflation p st supply now = current_inflation (legacy_view c) st supply now.
+Proof. exact migrated_minter_behaves_like_legacy. Qed.
+Print Assumptions C16_migrated_minter_behaves_like_legacy.
+
+(* start time, sequence ids and end times are kept position by position; the minter the stored state points at exists
+   afterwards iff it existed before *)
+Theorem C16_migrated_minter_keeps_ids_and_ends :
+  forall c p, migrate_minter_v3 c = Ok p ->
+  mp_start p = lc_start c /\ map m_seq (mp_minters p) = map lm_seq (lc_minters c) /\ map m_end (mp_minters p) = map lm_end (lc_minters c).
+Proof. exact migrated_minter_keeps_ids_and_ends. Qed.
+Print Assumptions C16_migrated_minter_keeps_ids_and_ends.
+
+Theorem C16_migrated_minter_keeps_current_period :
+  forall c p id, migrate_minter_v3 c = Ok p -> contains_minter p id = existsb (fun m => lm_seq m =? id) (lc_minters c).
+Proof. exact migrated_minter_keeps_current_period. Qed.
+Print Assumptions C16_migrated_minter_keeps_current_period.
+
+(* the migration (and with it the upgrade) is refused for a configuration the legacy rules accept exactly when the mint
+   denomination is not a valid coin denomination or an exponential-step period has amount zero — the two points where
+   the new rules are stricter *)
+Theorem C16_minter_migration_refused_exactly_when :
+  forall c, lconfig_valid c = true ->
+  ((exists p, migrate_minter_v3 c = Ok p) <->
+   lc_denom_nonempty c = true /\ lc_denom_ok c = true /\ forallb exp_amount_positive (lc_minters c) = true).
+Proof. exact minter_migration_refused_exactly_when. Qed.
+Print Assumptions C16_minter_migration_refused_exactly_when.
+
+(* distributor: the stored sub-distributors are the legacy ones, unchanged, and valid; refused iff invalid *)
+Theorem C16_migrated_distributor_params_are_the_same :
+  forall subs s, migrate_distr_v3 subs = Ok s -> s = subs /\ dparams_valid s = true.
+Proof. exact migrated_distr_params_are_the_legacy_ones. Qed.
+Print Assumptions C16_migrated_distributor_params_are_the_same.
+
+Theorem C16_distributor_migration_refused_exactly_when :
+  forall subs, (exists s, migrate_distr_v3 subs = Ok s) <-> dparams_valid subs = true.
+Proof. exact distr_migration_refused_exactly_when. Qed.
+Print Assumptions C16_distributor_migration_refused_exactly_when.
+
+(* the earlier (v1.1.0) conversion of percentages: the stored fraction times 100 is the percentage up to half a unit of
+   the 18th digit times 100 *)
+Theorem C16_v110_share_is_percent_over_100 :
+  forall pct, 0 <= pct -> -50 <= 100 * share_from_percent pct - pct <= 50.
+Proof. exact share_from_percent_is_percent_over_100. Qed.
+Print Assumptions C16_v110_share_is_percent_over_100.
+
+Theorem C16_v110_periodic_conversion_keeps_the_rate :
+  forall mp ma rpl f, 0 < mp -> 0 < rpl -> mp * rpl < 2147483648 ->
+  conv_periodic mp ma rpl f = CExp (ma * rpl) (mp * rpl * SECOND) f.
+Proof. exact periodic_conversion_keeps_the_rate. Qed.
+Print Assumptions C16_v110_periodic_conversion_keeps_the_rate.
